@@ -156,6 +156,16 @@ func runC01(r *core.Run) {
 			}
 		}
 	}
+	// many different leaves: anything that depends on the bytes of a link (its
+	// CID version, codec, digest) meets thousands of different digests, in CIDv0
+	// (bare multihash) and CIDv1 form
+	nLeaves := 3000
+	if !r.Quick() {
+		nLeaves = 20000
+	}
+	for _, wr := range []string{"balanced/raw=false/v1=false", "balanced/raw=true/v1=true", "trickle/raw=false/v1=false", "ours"} {
+		cases = append(cases, fileCase{Writer: wr, W: 174, Chunker: "size-3", L: 3 * nLeaves, K: 3, Pattern: "counter"})
+	}
 	// content-defined and default chunkers
 	cdc := []fileCase{}
 	rabinMax := 120
